@@ -188,20 +188,55 @@ DOWN = [
     ("below_only", (-10, 10), (-3, 10)), ("below_only_zero", (-10, 10), (0, 10)), ("below_only_pos", (-10, 10), (3, 10)),
     ("no_overflow", (-10, 10), (-20, 20)), ("wide_both", (-2**127, 2**127 - 1), (-2**100, 2**100)),
     ("full_128_to_half", (0, 2**128 - 1), (2**127, 2**128 - 1)), ("far_both", (2**200, 2**200 + 1000), (2**200 + 10, 2**200 + 20)),
+    # target upper = 2^128 / 2^128 +- 1, lower 0 / 1 / 2^128 - 1, sources u128-like, [1, 2^128] and around 2^128
+    ("u128_to_upper_2p128_lower_pos", (0, 2**128 - 1), (2**128 - 1000, 2**128 - 1)),
+    ("u128_to_top_singleton", (0, 2**128 - 1), (2**128 - 1, 2**128 - 1)),
+    ("u128_to_lower_one", (0, 2**128 - 1), (1, 2**128 - 1)),
+    ("shifted128_both_upper_2p128", (1, 2**128), (5, 2**128 - 1)),
+    ("shifted128_above_upper_2p128_plus1", (1, 2**128), (1, 2**128 - 2)),
+    ("around_2p128_both", (2**128 - 5, 2**128 + 5), (2**128 - 2, 2**128 + 1)),
+    ("around_2p128_above_to_upper_2p128", (2**128 - 5, 2**128 + 5), (2**128 - 5, 2**128 - 1)),
+    ("around_2p128_below_from_2p128", (2**128 - 5, 2**128 + 5), (2**128, 2**128 + 5)),
+    ("neg_to_upper_zero", (-10, 10), (-10, -1)), ("neg_to_upper_one", (-10, 10), (-10, 0)),
+    ("to_lower_one", (-10, 10), (1, 10)), ("to_singleton_zero", (-10, 10), (0, 0)),
+    ("full_signed_128_to_nonneg", (-2**127, 2**127 - 1), (0, 2**127 - 1)),
 ]
 for cls, (fl, fh), (tl, th) in DOWN:
     F, T = bi(fl, fh), bi(tl, th)
     W[f"p_downcast_{cls}"] = (header(f"downcast/{cls}", f"downcast {tl} {th}", [near(tl, th)]) + BI +
         f"fn main(v: {F}) -> Option<{T}> {{\n    bounded_int::downcast::<{F}, {T}>(v)\n}}\n")
+# felt252 -> BoundedInt<lo, hi> (range_reduction.rs::build_felt252_range_reduction, verify_optimal_range):
+# every comparison of the function against a constant is a threshold -- size vs prime % u128::MAX (= T1 + 1)
+# and vs 2^128, upper (= hi + 1) vs 0 and vs 2^128 (`upper_bound_fixer` 0 / the skipped second range check),
+# lower vs 0 (`minus_range_lower` 0); instantiated on both sides and at equality, plus ranges touching 2^128
+# from below / above and singletons.
+B128 = 2**128
 FELT_DOWN = [("small_crossing", -5, 5), ("size_T1", 0, T1 - 1), ("size_T1_minus1_neg", -(T1 - 1), -1),
-             ("far", 2**200, 2**200 + 10), ("signed_122", -2**122, 2**122)]
+             ("far", 2**200, 2**200 + 10), ("signed_122", -2**122, 2**122),
+             ("upper_2p128_lower_pos", B128 - 1000, B128 - 1), ("upper_2p128_singleton", B128 - 1, B128 - 1),
+             ("upper_2p128_size_T1", B128 - T1, B128 - 1), ("upper_2p128_minus1", B128 - 1001, B128 - 2),
+             ("upper_2p128_plus1", B128 - 999, B128), ("from_2p128", B128, B128 + 10), ("above_2p128", B128 + 1, B128 + 7),
+             ("upper_zero", -10, -1), ("upper_one", -10, 0), ("upper_minus1", -10, -2),
+             ("lower_zero", 0, 7), ("lower_one", 1, 7), ("lower_minus1", -1, 7),
+             ("singleton_zero", 0, 0), ("singleton_pos", 5, 5), ("singleton_neg", -1, -1),
+             ("lower_neg_2p128", -B128, -B128 + 9), ("below_neg_2p128", -B128 - 9, -B128 - 1)]
 for cls, tl, th in FELT_DOWN:
     T = bi(tl, th)
-    ex = near(tl % PRIME, th % PRIME, (th + 2**128) % PRIME, (tl - 2**128) % PRIME) + [0, PRIME - 1]
-    W[f"p_felt_downcast_{cls}"] = (header(f"felt_downcast/{cls}", "none", [ex]) + BI +
+    ex = near(tl % PRIME, th % PRIME, (th + 2**128) % PRIME, (tl - 2**128) % PRIME, (tl + 2**128) % PRIME,
+              (th - 2**128) % PRIME, 2**128) + [0, PRIME - 1]
+    W[f"p_felt_downcast_{cls}"] = (header(f"felt_downcast/{cls}", f"felt_downcast {tl} {th}", [ex]) + BI +
         f"fn main(v: felt252) -> Option<{T}> {{\n    bounded_int::downcast::<felt252, {T}>(v)\n}}\n")
 
+# Instantiations on which sierra-to-casm currently PANICS ("Wrong ap changes": validate_lt / validate_ge with a
+# bound of exactly 2^128 emit no tempvar while the declared ap change counts one) -- reported to the lead;
+# written to wrappers/pending/ (not part of the checked set) until /repo is fixed or a known finding is recorded.
+PENDING = ["p_downcast_around_2p128_above_to_upper_2p128", "p_downcast_around_2p128_below_from_2p128",
+           "p_downcast_shifted128_both_upper_2p128"]
+
 if __name__ == "__main__":
+    os.makedirs(os.path.join(HERE, "pending"), exist_ok=True)
+    for n in PENDING:
+        open(os.path.join(HERE, "pending", n + ".cairo"), "w").write(W.pop(n))
     keep = set()
     for name, src in sorted(W.items()):
         p = os.path.join(HERE, name + ".cairo")
